@@ -440,7 +440,7 @@ class ActionWalker(xtuml.Walker):
         return property(lambda: value)
     
     def accept_EnumOrNamedConstantNode(self, node):
-        item = self.symtab.find_symbol(node.namespace)
+        item = self.domain.find_symbol(node.namespace)
         value = getattr(item, node.name)
         return property(lambda: value)
         
@@ -449,7 +449,7 @@ class ActionWalker(xtuml.Walker):
     
     def accept_ImplicitInvocationNode(self, node):
         kwargs = self.accept(node.parameter_list)
-        item = self.symtab.find_symbol(node.namespace)
+        item = self.domain.find_symbol(node.namespace)
         fn = getattr(item, node.action_name)
         value = fn(**kwargs)
         return property(lambda: value)
@@ -462,7 +462,7 @@ class ActionWalker(xtuml.Walker):
         return property(lambda: value)
     
     def accept_ClassInvocationNode(self, node):
-        cls = self.symtab.find_symbol(node.key_letter)
+        cls = self.domain.find_symbol(node.key_letter)
         op = getattr(cls, node.action_name)
         kwargs = self.accept(node.parameter_list)
         value = op(**kwargs)
@@ -470,14 +470,14 @@ class ActionWalker(xtuml.Walker):
     
     def accept_BridgeInvocationNode(self, node):
         kwargs = self.accept(node.parameter_list)
-        ee = self.symtab.find_symbol(node.namespace)
+        ee = self.domain.find_symbol(node.namespace)
         fn = getattr(ee, node.action_name)
         value = fn(**kwargs)
         return property(lambda: value)
         
     def accept_FunctionInvocationNode(self, node):
         kwargs = self.accept(node.parameter_list)
-        fn = self.symtab.find_symbol(node.action_name)
+        fn = self.domain.find_symbol(node.action_name)
         value = fn(**kwargs)
         return property(lambda: value)
 
